@@ -27,6 +27,10 @@ A missing anchor is a broken tie: the list then lacks that fact and the lock lem
   BF_SynthClipBoxes      fd607e1: the three synthesised viewport clip paths (marker.rs, use_node.rs clip_element, image.rs) push their
                          Path::new_simple rectangle into the root and call root.calculate_bounding_boxes() right after
   BF_UseChildrenAbs      use_node::convert_children: parent.abs_transform temporarily pre_concat(transform), g.transform = transform
+  BF_UseClipWrapAbs      use_node::convert, `use` -> clipped symbol: the wrapper of clip_element(.., orig_ts, ..) gets abs_transform = parent abs
+                         (GK_ClipWrap: the known-wrong value of class use_transform_twice), the inner use group's transform is reset
+  BF_CliPageOffset       main.rs render_svg, --export-id with --export-area-page: the node pixmap is drawn at
+                         ((bbox.x * ts.sx) as i32, (bbox.y * ts.sy) as i32): the layer box origin is scaled BEFORE it is truncated (seed C12-16)
   BF_BackgroundAbs       convert_doc / background_path: the background rectangle is built by Path::new with root_ts as abs_transform
   BF_NewSimpleClipOnly   Path::new_simple (identity abs_transform) is called only for the clip rectangles of image.rs, marker.rs, use_node.rs
   BF_NodeLayerBox        Node::abs_layer_bounding_box: group -> Some(abs_layer); path, text -> abs_stroke_bounding_box().to_non_zero_rect()
@@ -49,6 +53,7 @@ CONV = 'crates/usvg/src/parser/converter.rs'
 USE = 'crates/usvg/src/parser/use_node.rs'
 LIB = 'crates/resvg/src/lib.rs'
 RENDER = 'crates/resvg/src/render.rs'
+MAIN = 'crates/resvg/src/main.rs'
 
 
 def norm(s):
@@ -90,6 +95,12 @@ FACTS = [
     ('BF_GroupAbs', CONV, r"let abs_transform = parent\.abs_transform\.pre_concat\(transform\);"),
     ('BF_UseChildrenAbs', USE, r"let old_abs_transform = parent\.abs_transform; parent\.abs_transform = parent\.abs_transform\.pre_concat\(transform\);.*"
                                r"g\.transform = transform; parent\.children\.push\(Node::Group\(Box::new\(g\)\)\); \} parent\.abs_transform = old_abs_transform;"),
+    ('BF_UseClipWrapAbs', USE, r"if let Some\(clip_rect\) = get_clip_rect\(node, child, state\) \{ let mut g = clip_element\(node, clip_rect, orig_ts, &use_state, cache\); "
+                               r"g\.abs_transform = parent\.abs_transform;.*g2\.id = String::new\(\); g2\.transform = Transform::default\(\); "
+                               r"g\.children\.push\(Node::Group\(Box::new\(g2\)\)\);"),
+    ('BF_CliPageOffset', MAIN, r"resvg::render_node\(node, ts, &mut pixmap\.as_mut\(\)\); if args\.export_area_page \{.*"
+                               r"let \(x, y\) = \(\(bbox\.x\(\) \* ts\.sx\) as i32, \(bbox\.y\(\) \* ts\.sy\) as i32\); "
+                               r"if tiny_skia::IntRect::from_xywh\(x, y, pixmap\.width\(\), pixmap\.height\(\)\)\.is_some\(\) \{ page_pixmap\.draw_pixmap\( x, y,"),
     ('BF_BackgroundAbs', CONV, r"background_path\(background_color, view_box\.rect\.to_rect\(\), root_ts\).*g\.transform = root_ts; g\.abs_transform = root_ts;.*"
                                r"fn background_path\( background_color: svgtypes::Color, area: Rect, abs_transform: Transform, \) -> Option<Path> \{.*"
                                r"Path::new\( String::new\(\), true, Some\(fill\), None, PaintOrder::default\(\), ShapeRendering::default\(\), "
